@@ -227,11 +227,13 @@ func (w *SrvWorld) checkE2E() {
 			}
 			got := false
 			for _, p := range w.Peers {
+				p.mu.Lock()
 				for _, r := range p.Received {
 					if bytes.Equal(r.Data, wr.Data) {
 						got = true
 					}
 				}
+				p.mu.Unlock()
 			}
 			if !got {
 				w.K.Violate(&Violation{Property: "C14", Class: "probe-lost", Key: kv("dir", "c2p", "horizon", horizon(wr.T-rc.allocAt)),
